@@ -77,14 +77,14 @@ Example C03_example_rule :
   tree_callback ex_rule true false [Tr "_x" [Tok "A" "a"]; Tok "COMMA" ","; Tr "c" []]
   = Ok (Some (Tr "a" [Tok "A" "a"; NoneV; Tr "c" []])) /\
   tree_callback ex_rule false false [Tr "_x" []; Tok "COMMA" ","; Tr "c" []] = Ok (Some (Tr "c" [])).
-Proof. repeat split; reflexivity. Qed.
+Proof. repeat split; vm_compute; reflexivity. Qed.
 
 (* [A "x" | _r B C]: longest alternative keeps 2 symbols (`"x"` and `_r` are not kept) *)
 Example C03_example_size :
   let e := EAlt [ESeq [ESym (mkSym true "A" false); ESym (mkSym true "X" true)];
                  ESeq [ESym (mkSym false "_r" false); ESym (mkSym true "B" false); ESym (mkSym true "C" false)]] in
   wf_ebnf e = true /\ frs false e = 2 /\ frs true e = 2 /\ longest false e = 2.
-Proof. repeat split; reflexivity. Qed.
+Proof. repeat split; vm_compute; reflexivity. Qed.
 
 Definition ex_x : rrec := mkR "_x" [mkSym true "A" false] None None false false [].
 Definition ex_c : rrec := mkR "c" [] None None false false [].
@@ -95,4 +95,4 @@ Example C03_example_derivation :
   wf_dtree true ex_deriv = true /\
   shape true ex_deriv = Some (Tr "a" [Tok "A" "a"; NoneV; Tr "c" []]) /\
   lalr_run true (postorder ex_deriv) = Some [Tr "a" [Tok "A" "a"; NoneV; Tr "c" []]].
-Proof. repeat split; reflexivity. Qed.
+Proof. repeat split; vm_compute; reflexivity. Qed.
